@@ -144,12 +144,12 @@ PROPS = {
         assumptions=[],
     ),
     'C09': dict(
-        level_text='Bounded model checking of the real serde layer (RangeDeserializerBuilder/RangeDeserializer/RowDeserializer/DataDeserializer) on ranges of concrete shape with symbolic numeric payloads: one item per row in order with size_hint bracketing the remainder after every step, positional records without headers, CellError with the error kind and the absolute position of the failing cell without affecting other rows, the primitive conversion table, and header selection in any order / HeaderNotFound.',
+        level_text='Bounded model checking of the real serde layer (RangeDeserializerBuilder/RangeDeserializer/RowDeserializer/DataDeserializer) on ranges of concrete shape with symbolic numeric payloads: one item per row in order with size_hint bracketing the remainder after every step, positional records without headers, CellError with the error kind and the absolute position of the failing cell without affecting other rows, the primitive conversion table, two failing rows, and (thorough) map access by header name over all headers.',
         hosts={'src/de.rs': ['c09_de.rs']},
         functions=['de::RangeDeserializerBuilder::from_range', 'de::RangeDeserializer::new', 'de::RangeDeserializer::next', 'de::RangeDeserializer::size_hint', 'de::RowDeserializer (SeqAccess)', 'de::DataDeserializer (deserialize_i64/u8/f64/bool/option/string/any)'],
         stubs=['alloc::fmt::format -> empty String (error texts)'],
-        bounds={'ranges': 'heights 1..=3, widths 1..=3, origins (3,2) (4,1) (0,0)', 'records': 'tuples of i64 (positional), a map-collecting record over 3 headers (all / reversed selection), header selection of 2 columns', 'payloads': 'symbolic i64/f64/bool'},
-        outside=['struct access through serde-derive visitors (map access is covered with a hand-written visitor)', 'string->number parsing', 'deserialize_as_*_or_none helpers', 'ranges larger than the shapes'],
+        bounds={'ranges': 'heights 1..=3, widths 1..=3, origins (3,2) (4,1) (0,0)', 'records': 'tuples of i64 (positional); thorough: a map-collecting record over 3 headers', 'payloads': 'symbolic i64/f64/bool'},
+        outside=['struct access through serde-derive visitors (map access over all headers is covered with a hand-written visitor, thorough)', 'Headers::Custom selection (with_headers): str::trim + position over the header row exceed 900 s; harnesses c09_x_* kept, not admitted', 'string->number parsing', 'deserialize_as_*_or_none helpers', 'ranges larger than the shapes'],
         assumptions=[],
     ),
     'C11': dict(
